@@ -204,7 +204,8 @@ where
          ])
     # ---- ResponseBody: an intercepted veto has no body frames; a forwarded response body is forwarded frame by frame ----
     u.raw('''
-// http_body::Body seen through one poll (A-httpbody-06); pin-project projections of ResponseBody / ResponseBodyKind (A-pinproject-09)
+// A-httpbody-06: http_body::Body seen through one poll (some relation `polled` between the state before, the result and the state after)
+// A-pinproject-09: pin-project projections of ResponseBody / ResponseBodyKind
 pub trait FrameBody {
     type Data; type Error;
     spec fn polled(&self, r: Poll<Option<Result<http_body::Frame<Self::Data>, Self::Error>>>, post: &Self) -> bool;
